@@ -16,6 +16,17 @@ claimed = {
         "NOT decided: that the two groupings give the same verdict as the ungrouped product over the input triples (bilinearity + commutativity: paper step); independence of the Go map iteration order (same paper step); Fp12_multi_pairing itself (N_MAX batching, infinity operands skipped) is an assumed contract.",
    note=TRUSTED + " BLST primitives and Fp12_multi_pairing (= left fold of gtMul over gtPair) are assumed; hash-to-curve is a function of the 128 bytes (chunk lemma proved from the extensionality of byte-string names, which is assumed); iteration over an unmodified Go map visits every key exactly once (counts and value-length sums of the visited keys: assumed semantics); len(pks) <= 2^24-1 is a precondition (the C code counts bytes in an int).",
    design="§0.2, §5 C02"),
+ "C07": dict(
+   text="Per-participant key-consistency contracts of Feldman VSS, Feldman-VSS-Qual and Joint-Feldman End, proved as representation invariants preserved by every handler for every order of message arrival: "
+        "(share consistency) whenever the verification vector is in and the dealer is not disqualified, this participant's private share matches its public share (g2^x == y_me, the C check G2_check_log) or its own complaint is still unanswered; an answered own complaint has replaced the share by the published answer; "
+        "(answers) every complaint that was both received and answered has an answer matching the complainer's public share as soon as the vector is known - whether complaint, answer or vector arrives last - otherwise the dealer is disqualified; "
+        "(timeouts) a missing vector at the shares timeout, more than t complaints at the complaints timeout, a malformed vector or answer disqualify; "
+        "(End) Qual: keys only if not disqualified and no complaint is left unanswered, and then the returned private key is x, the group key vA[0], the public shares y[k], with x*g2 == y_me; plain VSS likewise under validKey; "
+        "Joint-Feldman End: every instance with an unanswered complaint is disqualified before the keys are summed, the failure rule and error classes are exact. "
+        "The dealer's side: Fr_polynomial_image_write's public image is the generator times the written share. "
+        "NOT decided: agreement ACROSS participants (same verdicts, same group key) is the assume-guarantee composition over a reliable broadcast channel (paper step); that the public shares are the polynomial images of the vector (E2_polynomial_images: memory safety only) and the summation of the qualified dealers' keys (sumUpQualifiedKeys: assumed contract); Joint-Feldman's per-message loops (Start / NextTimeout / Handle*) are not part of this check.",
+   note=TRUSTED + " G2 arithmetic and the equality test are BLST primitives (uninterpreted; equality is reflexive and blind to the affine conversion: assumed); g2vecValid (a 96n-byte string decodes to n G2 points) is an abstract predicate introduced by an assumed clause; composition across participants is not machine-checked.",
+   design="§0.2, §5 C07"),
  "C04": dict(
    text="Every aggregation function is proved, for all list lengths and contents, to return THE sum of its inputs in the group it works in, stated with spec-level left folds (e1sum / e2sum / frsum: identity for n <= 0, add(sum(n-1), x[n-1]) otherwise) over the uninterpreted BLST additions: "
         "C (from the clang AST): Fr_sum_vector, E1_sum_vector, E2_sum_vector (loop invariant `partial sum`), E2_sum_vector_to_affine (= affine form of the sum, infinity preserved), E2_subtract_vector (= x + (-(sum y))), "
